@@ -560,6 +560,9 @@ func init() {
 			if _, err := ref.RawHTMLSelfTest(); err != nil {
 				return err
 			}
+			if _, err := ref.HTMLBlockSelfTest(); err != nil {
+				return err
+			}
 			return admSelfTest()
 		},
 		Run: func(c *Ctx) {
@@ -671,6 +674,31 @@ func init() {
 				}
 				x.Count(fmt.Sprintf("nesting_depth_%d", nestingDepth(doc)))
 				c06Compare(x, doc, "deep-nesting")
+			})
+			hl := c.Pick(4, 5)
+			c.Explore("html-block-lines", fmt.Sprintf("every document of <=%d lines from a %d-line menu (lines satisfying each of the seven HTML block start conditions, their end markers, near misses, text, blank), with LF, CRLF and CR line endings, against the start/end conditions of spec 4.6", hl, len(htmlLineMenu)), -1, hl, func(x *X) {
+				var lines []string
+				for i := 0; i < hl; i++ {
+					k := x.ChooseFree(len(htmlLineMenu) + 1)
+					if k == 0 {
+						break
+					}
+					lines = append(lines, htmlLineMenu[k-1])
+				}
+				if len(lines) == 0 {
+					return
+				}
+				c06HTMLBlockDriver(x, lines)
+			})
+			c.Explore("html-block-names", fmt.Sprintf("each of the %d element names of start condition 6 and of the 4 names of condition 1, in lower and upper case, as opening and closing tag with each admissible terminator, followed by a line that reads as emphasis outside an HTML block", len(ref.HTMLBlockNames6)), -1, 0, func(x *X) {
+				names := append(append([]string{}, ref.HTMLBlockNames6...), "pre", "script", "style", "textarea", "span", "a", "em", "custom", "divv", "h7", "tablee")
+				name := names[x.ChooseFree(len(names))]
+				if x.ChooseFree(2) == 1 {
+					name = strings.ToUpper(name)
+				}
+				open := []string{"<", "</"}[x.ChooseFree(2)]
+				term := []string{">", "", " ", "\t", "/>", " x>", "x"}[x.ChooseFree(7)]
+				c06HTMLBlockDriver(x, []string{open + name + term, "y", "", "z"})
 			})
 			c.Inputs(spRawTag, c.Pick(6, 7), c06RawDriver)
 			c.Inputs(spRawAttr, c.Pick(6, 7), c06RawDriver)
